@@ -46,3 +46,22 @@ Definition optnat_eqb (a : option nat) (b : option N) : bool :=
 Definition check_case (rs : list rec_entry) (fs : list bool) (r_resolve r_dser : option N) (r_ddeser : list (option N)) : bool :=
   let '(a, b, c) := run_case rs fs in
   optnat_eqb a r_resolve && opt_eqb b r_dser && opts_eqb c r_ddeser.
+
+(* ---- byte-level cases from the actor package: Terminated / PoisonPill frames *)
+From GV Require Import C23.Model.
+
+(* dec: 1 terminated, 2 poison, 3 shared layout (proto/cbor/json, structural part only), 4 delivery *)
+Definition check_wire (kind dec : N) (data path : bytes) (nanos : N) (ok parse_ok : bool) : bool :=
+  match dec with
+  | 1 =>
+      (* round-trip cases also check the encoder byte for byte *)
+      (if kind =? 1 then beq (terminated_ser path nanos) data else true) &&
+      match terminated_deser data with
+      | Some (p, n) => if ok then beq p path && (n =? nanos) else negb parse_ok
+      | None => negb ok
+      end
+  | 2 => Bool.eqb (poison_deser data) ok && (if kind =? 1 then beq poison_ser data else true)
+  | 3 => Bool.eqb (match shared_deser (fun _ => true) bytes (fun _ p => Some p) data with Some _ => true | None => false end) ok
+  | 4 => Bool.eqb (match delivery_deser data with Some _ => true | None => false end) ok
+  | _ => false
+  end.
